@@ -87,13 +87,37 @@ func randCase(r *rand.Rand, s string) string {
 	return string(rs)
 }
 
-func text(r *rand.Rand, alpha []rune) string {
+// oddSpaces are white-space runes that are NOT token separators for the
+// default filter (only space, \t, \n, \f, \r are): inside a filter text they
+// are ordinary characters of a token, inside a node text ordinary characters
+// to be matched.
+var oddSpaces = []string{"\u00A0", "\u3000", "\v", "\u2028", "\u0085", "\u1680", "\u2003"}
+
+// realSeps are the separators.
+var realSeps = []string{" ", "  ", "\t", "\n", "\f", "\r", " \t"}
+
+func text(r *rand.Rand, alpha []rune, odd bool) string {
 	n := r.Intn(4)
-	ws := make([]string, n)
-	for i := range ws {
-		ws[i] = randCase(r, fword(r, alpha, 3))
+	var sb strings.Builder
+	for i := 0; i < n; i++ {
+		if i > 0 {
+			switch {
+			case odd && r.Intn(3) == 0:
+				sb.WriteString(oddSpaces[r.Intn(len(oddSpaces))])
+			case odd && r.Intn(6) == 0:
+				sb.WriteString(realSeps[r.Intn(len(realSeps))])
+			default:
+				sb.WriteString(" ")
+			}
+		}
+		sb.WriteString(randCase(r, fword(r, alpha, 3)))
 	}
-	return strings.Join(ws, " ")
+	return sb.String()
+}
+
+// oddWord: two short words glued by a non-separator white-space rune.
+func oddWord(r *rand.Rand, alpha []rune) string {
+	return fword(r, alpha, 2) + oddSpaces[r.Intn(len(oddSpaces))] + fword(r, alpha, 2)
 }
 
 var stringKeyPool = []string{"a", "A", "b", "ab", "AB", "a b", "1", "01", "10", "2", "-1", "x\"y", "k/é", "MQ==", "BAD", "z z z", "null", "0", "true", "Ab", "ü", "k_1", "k-2", "k.3", "{}", "[1]", "q?", "p&q", "tab\tkey", "née", "日本", "$v", "#h", "\\n", "a,b", "first", "after", "x:y", "é", "~", "`", "'", "''", "(", ")", "*", "+", "=", "|", "<>"}
@@ -108,6 +132,7 @@ type caseData struct {
 	batching bool
 	v        view
 	alpha    []rune // letters the case's filter texts and node texts are made of
+	odd      bool   // unusual white-space runes in texts and filter texts
 }
 
 var bigInt64Bases = []int64{1 << 60, math.MaxInt64 - 64, -(1 << 60), math.MinInt64 + 8, 1 << 53, 1<<62 + 1<<40}
@@ -119,13 +144,14 @@ var bigUint64Bases = []uint64{1 << 63, math.MaxUint64 - 64, 1 << 60, 1<<63 + 1<<
 // cannot tell them apart.
 type listShape struct {
 	alpha  []rune // letters of the filter texts
+	odd    bool   // texts and filter texts also use unusual white-space runes
 	bBases []int64
 	wBases []uint64
 	rng    int
 }
 
 func genShape(r *rand.Rand, n int) listShape {
-	sh := listShape{rng: 1 + n*(1+r.Intn(3))/3, alpha: genAlphabet(r)}
+	sh := listShape{rng: 1 + n*(1+r.Intn(3))/3, alpha: genAlphabet(r), odd: r.Intn(3) == 0}
 	sh.bBases = []int64{bigInt64Bases[r.Intn(len(bigInt64Bases))]}
 	sh.wBases = []uint64{bigUint64Bases[r.Intn(len(bigUint64Bases))]}
 	if r.Intn(3) == 0 {
@@ -152,7 +178,7 @@ func genAttr(r *rand.Rand, sh listShape) Attr {
 		a.I = math.MinInt32 + int32(r.Intn(3))
 	}
 	for i := range a.T {
-		a.T[i] = text(r, sh.alpha)
+		a.T[i] = text(r, sh.alpha, sh.odd)
 	}
 	return a
 }
@@ -165,7 +191,7 @@ func mkS(id string, a Attr) ItemS {
 	return ItemS{Id: id, N: a.N, S: a.S, F: a.F, U: a.U, B: a.B, W: a.W, I: a.I, V: a.V, G: a.G, T0: a.T[0], T1: a.T[1], T2: a.T[2]}
 }
 
-func genList(r *rand.Rand, c connSpec) ([]mItem, *caseEnv, []rune) {
+func genList(r *rand.Rand, c connSpec) ([]mItem, *caseEnv, listShape) {
 	var n int
 	switch x := r.Intn(20); {
 	case x == 0:
@@ -222,12 +248,21 @@ func genList(r *rand.Rand, c connSpec) ([]mItem, *caseEnv, []rune) {
 			items = append(items, mItem{id: ids, attr: a})
 		}
 	}
-	env.filterBatchFlag = r.Intn(2) == 0
-	env.sortBatchFlag = r.Intn(2) == 0
-	return items, env, sh.alpha
+	genFlag := func() flagSource {
+		f := flagSource{seed: r.Uint64(), k: int64(1 + r.Intn(60))}
+		if r.Intn(2) == 0 {
+			f.mode = r.Intn(2) // constant
+		} else {
+			f.mode = 2 + r.Intn(nFlagModes-2)
+		}
+		return f
+	}
+	env.filterFlag = genFlag()
+	env.sortFlag = genFlag()
+	return items, env, sh
 }
 
-func genFilterText(r *rand.Rand, alpha []rune) string {
+func genFilterText(r *rand.Rand, alpha []rune, odd bool) string {
 	switch r.Intn(12) {
 	case 0:
 		return "" // documented: empty text does not filter
@@ -249,8 +284,27 @@ func genFilterText(r *rand.Rand, alpha []rune) string {
 		default:
 			toks[i] = randCase(r, fword(r, alpha, 1+r.Intn(3)))
 		}
+		if odd {
+			switch r.Intn(6) {
+			case 0, 1: // a bare token with a non-separator white-space rune inside
+				toks[i] = randCase(r, oddWord(r, alpha))
+			case 2: // the same inside a quoted phrase
+				toks[i] = `"` + randCase(r, oddWord(r, alpha)) + `"`
+			}
+		}
 	}
-	s := strings.Join(toks, strings.Repeat(" ", 1+r.Intn(2)))
+	var sb strings.Builder
+	for i, t := range toks {
+		if i > 0 {
+			if odd {
+				sb.WriteString(realSeps[r.Intn(len(realSeps))])
+			} else {
+				sb.WriteString(strings.Repeat(" ", 1+r.Intn(2)))
+			}
+		}
+		sb.WriteString(t)
+	}
+	s := sb.String()
 	if r.Intn(6) == 0 {
 		s = " " + s
 	}
@@ -260,11 +314,11 @@ func genFilterText(r *rand.Rand, alpha []rune) string {
 	return s
 }
 
-func genView(r *rand.Rand, c connSpec, alpha []rune) view {
+func genView(r *rand.Rand, c connSpec, alpha []rune, odd bool) view {
 	var v view
 	if r.Intn(100) < 55 {
 		v.hasFilterText = true
-		v.filterText = genFilterText(r, alpha)
+		v.filterText = genFilterText(r, alpha, odd)
 		if r.Intn(2) == 0 {
 			v.hasFields = true
 			// non-empty subset of the registered names; sometimes an unknown
@@ -538,8 +592,8 @@ func (c *checker) witness(what, q string, vars map[string]interface{}, extra map
 		"query":             q,
 		"variables":         vars,
 		"with_batching_ctx": c.cd.batching,
-		"filter_bf_flag":    c.cd.env.filterBatchFlag,
-		"sort_bf_flag":      c.cd.env.sortBatchFlag,
+		"filter_bf_flag":    fmt.Sprintf("%s k=%d seed=%d", flagModeNames[c.cd.env.filterFlag.mode], c.cd.env.filterFlag.k, c.cd.env.filterFlag.seed),
+		"sort_bf_flag":      fmt.Sprintf("%s k=%d seed=%d", flagModeNames[c.cd.env.sortFlag.mode], c.cd.env.sortFlag.k, c.cd.env.sortFlag.seed),
 		"filtered_sorted":   ids(c.l),
 	}
 	if c.cd.conn.stringKey {
@@ -1180,9 +1234,9 @@ func (c *checker) failHistory(r *rand.Rand, reps int) {
 	if len(cd.items) < 2 {
 		return
 	}
-	savedView, savedFlag := cd.v, cd.env.filterBatchFlag
+	savedView, savedMode := cd.v, cd.env.filterFlag.mode
 	defer func() {
-		cd.v, cd.env.filterBatchFlag = savedView, savedFlag
+		cd.v, cd.env.filterFlag.mode = savedView, savedMode
 		cd.env.failID, cd.env.failBatch = "", false
 		c.setList()
 	}()
@@ -1199,7 +1253,7 @@ func (c *checker) failHistory(r *rand.Rand, reps int) {
 	}
 	for rep := 0; rep < reps; rep++ {
 		// (1) the failing query; batch-with-fallback fields run their per-element fallback
-		cd.env.filterBatchFlag = false
+		cd.env.filterFlag.setConst(false)
 		cands := append(append([]filterSpec{}, perNode...), bf...)
 		broad := make([]string, len(cd.alpha))
 		for k, l := range cd.alpha {
@@ -1230,7 +1284,7 @@ func (c *checker) failHistory(r *rand.Rand, reps int) {
 		cd.env.failID, cd.env.failBatch = "", false
 
 		// (2) the query under observation: batch-filtered, narrow text
-		cd.env.filterBatchFlag = true
+		cd.env.filterFlag.setConst(true)
 		vv := view{hasFilterText: true}
 		switch r.Intn(10) {
 		case 0, 1, 2:
@@ -1272,8 +1326,8 @@ func runCase(run *vlib.Run, ex *executor, i int) {
 	r := run.Rand("case", i)
 	ci := r.Intn(len(conns))
 	conn := conns[ci]
-	items, env, alpha := genList(r, conn)
-	cd := &caseData{conn: conn, items: items, env: env, batching: r.Intn(2) == 0, alpha: alpha}
+	items, env, sh := genList(r, conn)
+	cd := &caseData{conn: conn, items: items, env: env, batching: r.Intn(2) == 0, alpha: sh.alpha, odd: sh.odd}
 	cd.poolM, cd.poolI, cd.poolS = items, env.itemsI, env.itemsS
 
 	c := &checker{run: run, ex: ex, i: i, cd: cd}
@@ -1312,9 +1366,9 @@ func runCase(run *vlib.Run, ex *executor, i int) {
 	}
 
 	// One view per list, sometimes a second one.
-	views := []view{genView(r, conn, cd.alpha)}
+	views := []view{genView(r, conn, cd.alpha, cd.odd)}
 	if r.Intn(4) == 0 {
-		views = append(views, genView(r, conn, cd.alpha))
+		views = append(views, genView(r, conn, cd.alpha, cd.odd))
 	}
 	for _, v := range views {
 		cd.v = v
@@ -1322,10 +1376,21 @@ func runCase(run *vlib.Run, ex *executor, i int) {
 		m := len(c.l)
 
 		run.Count("conn:"+conn.name, 1)
+		run.Count("bf_flag_filter:"+flagModeNames[env.filterFlag.mode], 1)
+		run.Count("bf_flag_sort:"+flagModeNames[env.sortFlag.mode], 1)
 		run.Count("raw_len:"+bucket(len(items)), 1)
 		run.Count("filtered_len:"+bucket(m), 1)
 		if c.fact {
 			run.Count("filter:active", 1)
+			if cd.odd {
+				run.Count("filter:case_with_unusual_white_space_runes", 1)
+				if strings.ContainsAny(v.filterText, "\u00A0\u3000\v\u2028\u0085\u1680\u2003") {
+					run.Count("filter:text_has_non_separator_white_space", 1)
+				}
+				if strings.ContainsAny(v.filterText, "\t\n\f\r") {
+					run.Count("filter:text_has_tab_newline_formfeed_cr_separator", 1)
+				}
+			}
 			if string(cd.alpha) != "abcd" {
 				run.Count("filter:non_ascii_letters_in_alphabet", 1)
 				if len(v.applyFold(conn, cd.items, asciiLower)) != m {
@@ -1412,7 +1477,7 @@ func TestCheck(t *testing.T) {
 	defer run.Finish()
 	run.Rule("case = one list (0-40 elements, unique int or string keys, sort values with duplicates, three mixed-case filter texts per element) served by one of four thunder-managed paginated fields " +
 		"(value/pointer nodes x int/string key; filter fields plain/Expensive/batch/batch-with-fallback, 36 sort fields = int64/string/float64/uint16/int32/uint32/float32 + int64 and uint64 with clusters of values above 2^53 (1<<60+d, MaxInt64-d, MinInt64+d, 1<<63+d, MaxUint64-d; d far below the float64 spacing) x plain/Expensive/batch/batch-with-fallback, fallback flags random; the model compares every sort value exactly in its own type) " +
-		"x 1-2 views (filterText of space-separated words / quoted phrases / empty tokens, words and node texts in mixed case over a per-case 4-letter alphabet that in half of the cases contains non-ASCII letters (Latin-1, Cyrillic, Greek, letters whose two cases differ in encoded length: U+023A/U+2C65, Kelvin sign, U+0130), optional filterTextFields subset incl. an unknown name, sortBy/sortOrder asc/desc/default). " +
+		"x 1-2 views (filterText of space-separated words / quoted phrases / empty tokens, words and node texts in mixed case over a per-case 4-letter alphabet that in half of the cases contains non-ASCII letters (Latin-1, Cyrillic, Greek, letters whose two cases differ in encoded length: U+023A/U+2C65, Kelvin sign, U+0130), in a third of the cases also white-space runes that do not separate tokens (NBSP, U+3000, \\v, U+2028, U+0085, U+1680, U+2003) inside bare and quoted tokens and between the words of node texts, and \\t \\n \\f \\r as token separators; optional filterTextFields subset incl. an unknown name, sortBy/sortOrder asc/desc/default). " +
 		"Per view: the whole list, a forward walk (first/after from endCursor while hasNextPage), a backward walk (last/before from startCursor while hasPrevPage), 10 absolute-position queries " +
 		"(first or last in {0,1,<len,=len,>len}; after/before valid first/middle/last, unknown = garbage / empty / base64 of a missing key / cursor of a filtered-out element; both cursors ordered, adjacent, same, inverted), " +
 		"and 2 prepared-query sequences: Parse + PrepareQuery ONCE, then 4-6 executions of the same *graphql.Query object while the mutable store behind the resolver grows (append / prepend / insert) and shrinks between executions " +
